@@ -113,6 +113,15 @@ def cmp(ctx, what, got_hrefs, want_counter):
 def run_case(ctx, i, rng):
     n = gen_ir.generate(rng, profile="any" if i % 2 else "edif", share=0.6, ndefs=rng.randint(4, 12), max_children=rng.choice([3, 4, 5]),
                         top_child_ok=(i % 5 == 0), style="mixed" if i % 3 == 0 else "simple")
+    if i % 4 == 3:
+        n = n.clone()           # a cloned netlist is a netlist like any other: its occurrences are enumerated and valid
+        ctx.count("cloned_netlists_queried")
+    elif i % 4 == 1 and n.top_instance is not None and n.top_instance.reference is not None:
+        # re-rooted through set_top_instance(<Instance>): the current top is whatever the netlist says it is
+        t_ = sdn.Instance(n.top_instance.name)
+        t_.reference = n.top_instance.reference
+        n.set_top_instance(t_)
+        ctx.count("netlists_rerooted_by_set_top_instance")
     st = gen_ir.shape_stats(n)
     want, occ = occ_sets(n)
     if sum(len(v) for v in occ.values()) > 30000:
@@ -328,7 +337,13 @@ def run_case(ctx, i, rng):
                 if compat:
                     x.reference = rng.choice(compat)
             elif k == 7 and rng.random() < 0.2:
-                n.top_instance = rng.choice(defs)
+                if rng.random() < 0.5:
+                    n.top_instance = rng.choice(defs)
+                else:
+                    t_ = sdn.Instance("reroot%d" % step)
+                    t_.reference = rng.choice(defs)
+                    n.set_top_instance(t_)
+                    ctx.count("reroot_edits_by_set_top_instance")
             elif k == 8 and len(d.ports):
                 p = rng.choice(list(d.ports))
                 if len(p.pins):
